@@ -167,6 +167,7 @@ NEAR_VALID = {
     'insert_code_multibyte_char2': "char c;\nvoid main() {\n c = 1; X='\u20ac'+'\u20ac';\n c = 2; }",
     'short_idx_shift': 'short arr[4]; void main() { X = arr[2147483647] >> 8; }',
     'macro_2000_params': '#define F(' + ','.join('p%d' % i for i in range(2000)) + ') 0\nvoid main() { X = 1; }',
+    'macro_regexset_big': ''.join('#define F%d(%s) 0\n' % (i, ','.join('q%d' % j for j in range(20))) for i in range(99)) + 'void main() { X = F3(' + ','.join(['1'] * 20) + '); }',
     'macro_empty_param': '#define f(a,) a\nvoid main() { X = 1; }',
     'macro_digit_param': '#define f(1a) 1a\nvoid main() { X = 1; }',
     'cctmp_function': 'char *p; char *q; void cctmp0() {} void main() { p = "a"; q = "b"; cctmp0(); }',
